@@ -202,6 +202,10 @@ def forms_program():
                 use("u", "w", "y"),
                 ["bind", "z", ["add", ["walrus", "n1", ["add", ["walrus", "n2", V], V]], V]],
                 ["ifx", ["walrus", "n3", ["walrus", "n4", V]], [use("n1", "n2", "n3", "n4", "z")], []],
+                # PEP 572: a walrus inside a comprehension binds in the enclosing function
+                ["bind", "cw", ["const", 0]],
+                ["bind", "lst", ["comp", ["walrus", "cw", ["add", var("cw"), V]]]],
+                use("cw", "lst"),
                 ["ret", var("y")],
             ],
         )
@@ -440,6 +444,21 @@ def forms_program():
             ],
         )
     )
+    F.append(
+        fn(
+            "shadow",
+            ["p"],
+            [
+                # 'hash' and 'round' are module-level functions of the actor module that
+                # shadow the builtins of the same name; 'len' is the real builtin
+                ["bind", "x", ["call", "hash", [var("p")]]],
+                ["bind", "y", ["call", "round", [V]]],
+                ["bind", "n", ["call", "len", [["tup", [var("x"), var("y")]]]]],
+                use("x", "y", "n"),
+                ["ret", var("y")],
+            ],
+        )
+    )
     F.append(fn("deco", ["p"], [["bind", "x", V], use("x"), ["ret", var("x")]], kind="deco"))
     classes = [
         {
@@ -486,6 +505,16 @@ def forms_program():
         "classes": classes,
         "closures": closures,
         "instances": [{"name": "k1", "cls": "K", "key": 1}],
+        "module_globals": [
+            "def hash(v):",
+            "    ENV.use('shadow.hash', v)",
+            "    return ('h', v)",
+            "",
+            "def round(v):",
+            "    ENV.use('shadow.round', v)",
+            "    return v + 1",
+            "",
+        ],
     }
 
 
